@@ -723,8 +723,25 @@ func runSkipLevel(c *Ctx, r *RuleRun) {
 		ok := hasFact(st, func(cm Cmp) bool {
 			return cm.Op == ">" && cm.X == st.Val && cm.Y != nil && isLoadOfField(cm.Y, lvl)
 		})
-		// or written as s.level = max(s.level, level): the stored value is at least the current height
-		ok = ok || p.geq(st.Val, factsAt(st), func(v ssa.Value) bool { return isLoadOfField(v, lvl) }, 0)
+		// or written as s.level = max(s.level, level): the stored value is at least the current height - and at least
+		// the height of the tower that is being linked (the length of the new element's `next`): a height that grows
+		// by less than the tower leaves its upper levels linked but unknown to Delete
+		if !ok {
+			var towerLen ssa.Value
+			eachInstr(set, func(i2 ssa.Instruction) {
+				if ms, isMS := i2.(*ssa.MakeSlice); isMS {
+					if sl, isSl := ms.Type().Underlying().(*types.Slice); isSl {
+						if _, isPtr := sl.Elem().Underlying().(*types.Pointer); isPtr && !inLoop(ms.Block()) {
+							if _, isConst := ms.Len.(*ssa.Const); !isConst && !isLoadOfField(ms.Len, p.Field("pkg/skiplist", "SkipList", "maxLevel")) {
+								towerLen = unconv(ms.Len)
+							}
+						}
+					}
+				}
+			})
+			ok = towerLen != nil && p.geq(st.Val, factsAt(st), func(v ssa.Value) bool { return isLoadOfField(v, lvl) }, 0) &&
+				p.geq(st.Val, factsAt(st), func(v ssa.Value) bool { return v == towerLen }, 0)
+		}
 		r.Check(ok, p.FnName(set), "height only grows", p.Pos(instrPos(st)), "stored only when the new tower is taller than the current height",
 			"the list height follows the last inserted tower and can shrink below existing towers: Delete then unlinks a tall node only on the lower levels, the node stays linked above and later insertions behind it are unreachable on level 0")
 	}
@@ -1488,6 +1505,21 @@ func runWmPublish(c *Ctx, r *RuleRun) {
 			return
 		}
 		bi, ok := call.Call.Value.(*ssa.Builtin)
+		if src, _, isClose := chanCloseOf(p, call); isClose && !ok {
+			// a closure/helper that closes the channels it is handed (wake(cs...)): judged like the close itself
+			if fv, _ := loadedField(src); fv == a.fMarkC {
+				return
+			}
+			for _, st := range stores {
+				x := st.Call.Args[1]
+				if hasFact(call, func(cm Cmp) bool { return cm.Op == "<=" && cm.Y == x }) {
+					n++
+					r.Check(dominatesInstr(st, call), fn, "store before releasing waiters", p.Pos(instrPos(call)), "doneUntil.Store precedes the close of the waiter",
+						"a waiter is released before the new value of doneUntil is stored: WaitForMark returns nil although DoneUntil() still reads below its index")
+				}
+			}
+			return
+		}
 		if !ok {
 			// a helper of the package that releases waiters and is handed the new value
 			g := call.Call.StaticCallee()
